@@ -48,7 +48,15 @@ def run_one(m):
                 s = open(p).read()
                 if s.count(e["old"]) < 1:
                     return m, "STALE", "anchor text not found in %s: %r" % (e["file"], e["old"][:60])
-                s = s.replace(e["old"], e["new"], e.get("count", 1))
+                if "nth" in e:
+                    idx = -1
+                    for _ in range(e["nth"]):
+                        idx = s.find(e["old"], idx + 1)
+                    if idx < 0:
+                        return m, "STALE", "occurrence %d of anchor not found" % e["nth"]
+                    s = s[:idx] + e["new"] + s[idx + len(e["old"]):]
+                else:
+                    s = s.replace(e["old"], e["new"], e.get("count", 1))
                 open(p, "w").write(s)
         env = dict(os.environ, LSA_REPO=tmp, LSA_NO_EVIDENCE="1")
         r = subprocess.run([sys.executable, "-m", "lsa.check", m["prop"], "--tier", m.get("tier", "quick")], cwd=VERIF, env=env,
